@@ -62,7 +62,7 @@ func (mc *modelCopier) item(it Item, j, p int) pdf.Object {
 		return itemInt(j, p)
 	case 's':
 		return itemStr(j, p)
-	case 'n':
+	case 'n', 'N', 'M':
 		return nil
 	case 'a':
 		if mc.flaw == flawEmptyArray {
@@ -148,8 +148,15 @@ func (mc *modelCopier) ref(it Item) pdf.Object {
 }
 
 func (mc *modelCopier) content(j int) pdf.Object {
-	o := mc.s.g[j]
+	return mc.contentOf(mc.s.g[j], j)
+}
+
+// contentOf is the copy of a value described by o (object j of the graph, or
+// a hand-made direct value with j = directJ).
+func (mc *modelCopier) contentOf(o Obj, j int) pdf.Object {
 	switch o.K {
+	case 'n', 'N', 'M':
+		return nil
 	case 'i':
 		return objInt(j)
 	case 's':
@@ -197,6 +204,15 @@ func (mc *modelCopier) content(j int) pdf.Object {
 			d["Filter"] = pdf.Name("FlateDecode")
 			d["DecodeParms"] = pdf.Dict{"Predictor": pdf.Integer(12), "Columns": pdf.Integer(4)}
 			raw = deflate(pngUp(plain, 4))
+		default:
+			if _, ok := spellingOf(o.V); ok {
+				var f, p pdf.Object
+				f, p, raw = stmEncoding(o.V, plain)
+				d["Filter"] = f
+				if p != nil {
+					d["DecodeParms"] = p
+				}
+			}
 		}
 		if mc.mem != nil {
 			// described as data: the dictionary and the decoded bytes
@@ -270,6 +286,15 @@ func modelExecute(s *source, prog []Op, tgtCfg string, fl flaw, inMemory bool) (
 		case 'C':
 			st.ref = w.Alloc()
 			if err := w.Put(st.ref, mc.content(op.J)); err != nil {
+				return nil, fmt.Errorf("model Put: %w", err)
+			}
+		case 'V':
+			o, err := parseObj(op.D)
+			if err != nil {
+				return nil, err
+			}
+			st.ref = w.Alloc()
+			if err := w.Put(st.ref, mc.contentOf(o, directJ)); err != nil {
 				return nil, fmt.Errorf("model Put: %w", err)
 			}
 		case 'D':
